@@ -79,6 +79,41 @@ impl Trigger for ScriptTrigger {
 
 type Log = Arc<Mutex<Vec<Val>>>;
 
+// ---- a SECOND rolling appender ("side": <dir>/side/cur.log, SizeTrigger(SIDE_LIMIT), window of 2) that
+// ---- receives a record from INSIDE a call of the main appender: from its encoder (SIDE_FIRE = 1) or from
+// ---- its roller (SIDE_FIRE = 2).  op (10 chunks side_record via).
+const SIDE_LIMIT: u64 = 10;
+static SIDE: Mutex<Option<Arc<RollingFileAppender>>> = Mutex::new(None);
+static SIDE_TABLE: Mutex<Vec<Vec<u8>>> = Mutex::new(Vec::new());
+static SIDE_FIRE: AtomicUsize = AtomicUsize::new(0);
+static SIDE_RESULT: AtomicUsize = AtomicUsize::new(0); // 0 not fired, 1 fired + Ok, 2 fired + Err
+
+#[derive(Debug)]
+struct SideEncoder;
+impl Encode for SideEncoder {
+    fn encode(&self, w: &mut dyn EncWrite, record: &log::Record) -> anyhow::Result<()> {
+        let id: usize = record.args().to_string().parse()?;
+        let b = SIDE_TABLE.lock().unwrap()[id].clone();
+        w.write_all(&b)?;
+        Ok(())
+    }
+}
+
+/// called from inside the main appender's encoder / roller
+fn side_fire(via: usize) {
+    if SIDE_FIRE.compare_exchange(via, 0, Ordering::SeqCst, Ordering::SeqCst).is_err() {
+        return;
+    }
+    let side = SIDE.lock().unwrap().clone();
+    if let Some(side) = side {
+        let id = SIDE_TABLE.lock().unwrap().len() - 1;
+        let ok = side
+            .append(&log::Record::builder().level(log::Level::Info).args(format_args!("{}", id)).build())
+            .is_ok();
+        SIDE_RESULT.store(if ok { 1 } else { 2 }, Ordering::SeqCst);
+    }
+}
+
 /// Roller wrapper: counts the calls and fails on demand before touching anything.
 #[derive(Debug)]
 struct SpyRoll {
@@ -93,6 +128,7 @@ impl Roll for SpyRoll {
         if self.fail.load(Ordering::SeqCst) {
             anyhow::bail!("scripted roller failure");
         }
+        side_fire(2);
         self.inner.roll(file)
     }
 }
@@ -139,6 +175,7 @@ impl Encode for ChunkEncoder {
     fn encode(&self, w: &mut dyn EncWrite, record: &log::Record) -> anyhow::Result<()> {
         let id: usize = record.args().to_string().parse()?;
         self.order.lock().unwrap().push(id);
+        side_fire(1);
         for ch in &self.table[id] {
             w.write_all(ch)?;
         }
@@ -241,7 +278,11 @@ impl Ctx {
                                 walk(base, &p, out);
                             }
                         }
-                        Ok(m) if m.is_dir() => walk(base, &p, out),
+                        Ok(m) if m.is_dir() => {
+                            if !(d == base && e.file_name() == "side") {
+                                walk(base, &p, out)
+                            }
+                        }
                         Ok(m) => out.push((
                             p.strip_prefix(base).unwrap().to_string_lossy().to_string(),
                             m.len(),
@@ -439,7 +480,7 @@ pub fn run(case: &Val) -> Val {
     for o in c[4].l() {
         let o = o.l();
         match o[0].n() {
-            0 | 5 | 7 => table.push(chunks_of(&o[1])),
+            0 | 5 | 7 | 10 => table.push(chunks_of(&o[1])),
             2 => {
                 for th in o[1].l() {
                     for r in th.l() {
@@ -503,6 +544,45 @@ pub fn run(case: &Val) -> Val {
                 if !ok {
                     errors += 1;
                 }
+            }
+            10 => {
+                // an append whose encoder (via 1) / roller (via 2) appends a record to the SIDE appender
+                if SIDE.lock().unwrap().is_none() {
+                    let sd = ctx.dir.join("side");
+                    let roller = FixedWindowRoller::builder()
+                        .build(&format!("{}/arch.{{}}.log", sd.display()), 2)
+                        .expect("side roller");
+                    let policy = CompoundPolicy::new(Box::new(SizeTrigger::new(SIDE_LIMIT)), Box::new(roller));
+                    let side = RollingFileAppender::builder()
+                        .encoder(Box::new(SideEncoder))
+                        .build(sd.join("cur.log"), Box::new(policy))
+                        .expect("side appender");
+                    *SIDE.lock().unwrap() = Some(Arc::new(side));
+                }
+                SIDE_TABLE.lock().unwrap().push(o[2].s().to_vec());
+                SIDE_RESULT.store(0, Ordering::SeqCst);
+                SIDE_FIRE.store(o[3].u(), Ordering::SeqCst);
+                let ok = match &app {
+                    Some(a) => append_id(a, next_id),
+                    None => false,
+                };
+                SIDE_FIRE.store(0, Ordering::SeqCst);
+                next_id += 1;
+                if !ok {
+                    errors += 1;
+                }
+                // the side directory: (kind idx bytes) with kind 0 active / 1 archive idx
+                let mut sl: Vec<Val> = Vec::new();
+                let sd = ctx.dir.join("side");
+                if let Ok(b) = std::fs::read(sd.join("cur.log")) {
+                    sl.push(Val::L(vec![Val::N(0), Val::N(0), Val::S(b)]));
+                }
+                for i in 0..4u128 {
+                    if let Ok(b) = std::fs::read(sd.join(format!("arch.{}.log", i))) {
+                        sl.push(Val::L(vec![Val::N(1), Val::N(i), Val::S(b)]));
+                    }
+                }
+                extra = Some(Val::L(vec![Val::N(SIDE_RESULT.load(Ordering::SeqCst) as u128), Val::L(sl)]));
             }
             4 => {
                 // hot restart: the previous instance stays in service
@@ -604,6 +684,8 @@ pub fn run(case: &Val) -> Val {
     }
     drop(old);
     drop(app);
+    *SIDE.lock().unwrap() = None;
+    SIDE_TABLE.lock().unwrap().clear();
     Val::L(out)
 }
 
